@@ -13,9 +13,8 @@ SPEC = dict(
                 "script sets with distinct sender ids and any number of polls: no_loss_no_dup (delivered ++ still-held = produced, per sender), "
                 "per_sender_order, tagged_by_sender, ends_iff_all_ended (Ready(None) iff no source left; then everything was delivered; live "
                 "sources are never dropped; all ended => None), cursor_in_bounds, each_source_polled_at_most_once_per_poll, "
-                "fairness_one_round_partial (a ready source at distance p from the cursor is served within p+1 calls, no call wasted). "
-                "PARTIAL: the clause 'no other sender is served twice before it' is stated (fairnessStatement) but only checked by the "
-                "harness oracle, not proved. Tie: the harness builds the real MergeSource over real TaggedSources over scripted streams via "
+                "fairness_one_round (a ready source at distance p from the cursor is served after k <= p other deliveries, all of them items "
+                "of pairwise different other senders: no sender is served twice while it waits, no call is wasted). Tie: the harness builds the real MergeSource over real TaggedSources over scripted streams via "
                 "MergeSource::verif_new / TaggedSource::verif_new (cfg hydro_project_hydro_verif), polls it call by call and prints output, "
                 "sources.len(), poll_cursor and the sources polled (in order); all are diffed against the compiled model; the property "
                 "clauses are evaluated on the real code by an independent oracle."),
